@@ -349,3 +349,62 @@ func itoa(i int) string {
 	}
 	return s
 }
+
+// loopCounter: v (conversions stripped) is a loop index phi with edges 0 and phi+1.
+func loopCounter(v ssa.Value) bool {
+	p, ok := stripConv(v).(*ssa.Phi)
+	if !ok {
+		return false
+	}
+	z, inc := false, false
+	for _, e := range p.Edges {
+		if c, ok := constInt(e); ok && c == 0 {
+			z = true
+		}
+		if a, ok := e.(*ssa.BinOp); ok && a.Op == token.ADD && a.X == ssa.Value(p) {
+			if c, ok := constInt(a.Y); ok && c == 1 {
+				inc = true
+			}
+		}
+	}
+	return z && inc
+}
+
+// strideOK: the offset of an unsafe.Add is sizePath (pointer advanced once per iteration) or index*sizePath (pointer computed from the base).
+func strideOK(off ssa.Value, sizePath string) (bool, string) {
+	off = stripConv(off)
+	if path(off) == sizePath {
+		return true, "advances by " + sizePath
+	}
+	if bo, ok := off.(*ssa.BinOp); ok && bo.Op == token.MUL {
+		if path(stripConv(bo.Y)) == sizePath && loopCounter(bo.X) || path(stripConv(bo.X)) == sizePath && loopCounter(bo.Y) {
+			return true, "base + index*" + sizePath
+		}
+	}
+	return false, path(off)
+}
+
+// isDispatchHelper: fn(t, b, p) only forwards to t.AppendFunc(t, b, p) or t.AppendFunc(t, b, *(*unsafe.Pointer)(p)).
+func isDispatchHelper(fn *ssa.Function) bool {
+	if fn == nil || fn.Blocks == nil || len(fn.Params) != 3 || namedOf(fn.Params[0].Type()) != "tType" || !isByteSlice(fn.Params[1].Type()) || !isUnsafePointer(fn.Params[2].Type()) {
+		return false
+	}
+	ei := analyseEmits(fn)
+	if len(ei.events) == 0 || len(ei.foreign) > 0 {
+		return false
+	}
+	t := fn.Params[0].Name()
+	for _, e := range ei.events {
+		if e.Kind != "dyn" || path(e.Call.Call.Value) != t+".AppendFunc" || len(e.Call.Call.Args) != 3 || e.Call.Call.Args[0] != ssa.Value(fn.Params[0]) {
+			return false
+		}
+		ptr := e.Call.Call.Args[2]
+		if ld := loadOf(ptr); ld != nil && isUnsafePointer(ld.T) {
+			ptr = ld.Ptr
+		}
+		if ptr != ssa.Value(fn.Params[2]) {
+			return false
+		}
+	}
+	return true
+}
